@@ -115,6 +115,37 @@ def cmd_run(sid, tier="quick", pid=None):
     return rc
 
 
+def cmd_prun(sid, tier="quick", pid=None):
+    """same as run, on a scratch worktree (VERIF_REPO) with scratch outputs (VERIF_OUT): several can run at once"""
+    d = os.path.join(SEEDED, sid)
+    m = load_meta(d)
+    pid = pid or m.get("property") or sid.split("-")[0]
+    wt, outd = f"/var/tmp/verif-sw/{sid}", f"/var/tmp/verif-sw/{sid}.out"
+    sh(f"git -C /repo worktree remove --force {wt}")
+    shutil.rmtree(wt, ignore_errors=True)
+    os.makedirs(os.path.join(outd, "evidence"), exist_ok=True)
+    rc, out = sh(f"git -C /repo worktree add -q --detach {wt} HEAD")
+    assert rc == 0, out
+    try:
+        rca, oa = sh(f"git apply {patch_of(d)}", cwd=wt)
+        if rca != 0:
+            print(sid, "patch does not apply:", oa[-300:])
+            return None
+        rc, out = sh(f"VERIF_REPO={wt} VERIF_OUT={outd} ./check {pid} {tier}", cwd=HERE, timeout=7200)
+    finally:
+        sh(f"git -C /repo worktree remove --force {wt}")
+        shutil.rmtree(wt, ignore_errors=True)
+        shutil.rmtree(outd, ignore_errors=True)
+    lines = [l for l in out.splitlines() if l.startswith(("VIOLATION", "  obligation", "KNOWN", pid + " ", "ENGINE-ERROR"))]
+    print(sid, tier, "exit", rc, flush=True)
+    for l in lines[:4]:
+        print("   ", l[:260], flush=True)
+    m = load_meta(d)
+    m.setdefault("check_results", {})[f"{pid}:{tier}"] = dict(exit=rc, detected=(rc == 1), lines=[l[:300] for l in lines[:4]])
+    save_meta(d, m)
+    return rc
+
+
 if __name__ == "__main__":
     a = sys.argv[1:]
     if a[0] == "import":
@@ -123,6 +154,18 @@ if __name__ == "__main__":
         sys.exit(0 if cmd_verify(a[1]) else 1)
     elif a[0] == "run":
         cmd_run(a[1], *(a[2:]))
+    elif a[0] == "prun":
+        cmd_prun(a[1], *(a[2:]))
+    elif a[0] == "pall":
+        # tools/seeded.py pall [prefix] [tier] [jobs]
+        from concurrent.futures import ThreadPoolExecutor
+
+        sids = [s_ for s_ in sorted(os.listdir(SEEDED)) if (len(a) < 2 or s_.startswith(a[1]))]
+        tier = a[2] if len(a) > 2 else "quick"
+        with ThreadPoolExecutor(int(a[3]) if len(a) > 3 else 3) as ex:
+            res = list(ex.map(lambda s_: (s_, cmd_prun(s_, tier)), sids))
+        missed = [s_ for s_, rc in res if rc != 1]
+        print(f"{len(res) - len(missed)}/{len(res)} detected; not detected: {missed}")
     elif a[0] == "all":
         for sid in sorted(os.listdir(SEEDED)):
             if len(a) > 1 and not sid.startswith(a[1]):
